@@ -161,6 +161,14 @@ def gen(ctx):
                 ry = np.array([[0, 0, s], [0, 1, 0], [-s, 0, 0]])
                 rx = np.array([[1, 0, 0], [0, math.cos(a), -math.sin(a)], [0, math.sin(a), math.cos(a)]])
                 p[:3, :3] = ry @ rx
+            if k % 5 == 1:   # nearly planar: rotation about the normal of the target plane with a small tilt
+                nd = PL[["xy", "xz", "yz"][i % 3]][1]
+                h = float(rng.uniform(-math.pi, math.pi))
+                base = planar_pose(["xy", "xz", "yz"][i % 3], h if abs(math.cos(h)) > 0 else 0.1, [0, 0, 0])[:3, :3]
+                tilt_axis = np.zeros(3)
+                tilt_axis[(nd + 1) % 3] = 1.0
+                from harness.props.c09 import rodrigues_py
+                p[:3, :3] = rodrigues_py(tilt_axis * float(10.0 ** rng.uniform(-6, -2))) @ base
             p[:3, 3] = rng.normal(size=3) * 10.0 ** rng.integers(-2, 6)
             poses.append(p)
         c = {"kind": "general", "plane": ["xy", "xz", "yz"][i % 3], "poses": [H(p) for p in poses],
